@@ -3,10 +3,10 @@
 // Each contract is what Kani proves on the real bodies in backend.rs on the real 128-slot table:
 //  * Handle::is_closed  - one SeqCst load of a flag that is only ever set (C11.STICKY): once seen true, always true;
 //  * Pending::next      - one scan step (C09.SCAN-ALL, C10.ADVANCE-ON-NONE, C10.INDEX-IS-SIGNAL): here only "returns Some(v) or None";
-//  * poll_pending       - loads the flag first; closed => Ok(None) WITHOUT consulting the callback (C11.NO-BLOCK-AFTER-CLOSE);
-//                         otherwise consults it exactly once: Ok(false) => Ok(None), Ok(true) => drain + fresh batch, Err => Err
-//                         (C11.POLL-PENDING-*, C09.DRAIN-THEN-SCAN). Its PRECONDITION is part of the property: it may only be
-//                         called right after a scan step that returned None and never after the flag was seen set.
+//  * SignalDelivery::pending - non-blocking drain, then a new batch (C09.DRAIN-THEN-SCAN): one event `Fresh`;
+//  * a call of the readiness callback: one event carrying its answer.
+// `poll_pending` is NOT assumed: its body is extracted and verified against `poll_pending_post` in this same file, and
+// poll_signal sees only that contract (modular verification inside one tool).
 // `Exfiltrator` (sealed trait with an `Output` type), `AsRawFd` and `SignalDelivery` (only its `handle` field is named
 // by poll_signal) are stand-ins; `BorrowMut` gets an external trait specification.
 #[verifier::external_type_specification]
@@ -24,8 +24,8 @@ pub trait ExBorrowMut<Borrowed: ?Sized>: core::borrow::Borrow<Borrowed> {
 }
 pub trait Exfiltrator { type Output; }
 pub trait AsRawFd {}
-pub enum PK { ClosedNoCall, CbFalse, CbTrue, CbErr }
-pub enum PEv<O> { Closed(bool), Next(Option<O>), Poll(PK) }
+pub enum CbAns { False, True, Err }
+pub enum PEv<O> { Closed(bool), Next(Option<O>), Cb(CbAns), Fresh }
 /// ghost state of one poll_signal call: the trace of what it did, and whether any load of the closed flag returned true
 pub struct PS<O> { pub tr: Seq<PEv<O>>, pub closed_seen: bool }
 
@@ -53,21 +53,30 @@ pub struct SignalDelivery<R, E: Exfiltrator> {
     handle: Handle,
     pending: core::marker::PhantomData<E>,
 }
+/// contract of poll_pending (verified below on its extracted body, used by poll_signal at its call site):
+/// closed => Ok(None) and the callback is NOT consulted; otherwise the callback is consulted exactly once and
+/// Ok(false) => Ok(None), Ok(true) => drain + fresh batch => Ok(Some(batch)), Err(e) => Err(e); nothing else happens
 pub open spec fn poll_pending_post<O>(s0: PS<O>, s1: PS<O>, some: bool, none: bool, err: bool) -> bool {
-    let k = s1.tr.last()->Poll_0;
-    &&& s1.tr.len() == s0.tr.len() + 2 && s1.tr.last() is Poll
-    &&& s1.tr == s0.tr.push(PEv::Closed(k is ClosedNoCall)).push(PEv::Poll(k))
-    &&& s1.closed_seen == (s0.closed_seen || k is ClosedNoCall)
-    &&& (s0.closed_seen ==> k is ClosedNoCall)
-    &&& some == (k is CbTrue)
-    &&& none == (k is ClosedNoCall || k is CbFalse)
-    &&& err == (k is CbErr)
+    ||| none && !some && !err && s1.closed_seen && s1.tr == s0.tr.push(PEv::Closed(true))
+    ||| none && !some && !err && !s0.closed_seen && !s1.closed_seen && s1.tr == s0.tr.push(PEv::Closed(false)).push(PEv::Cb(CbAns::False))
+    ||| some && !none && !err && !s0.closed_seen && !s1.closed_seen && s1.tr == s0.tr.push(PEv::Closed(false)).push(PEv::Cb(CbAns::True)).push(PEv::Fresh)
+    ||| err && !none && !some && !s0.closed_seen && !s1.closed_seen && s1.tr == s0.tr.push(PEv::Closed(false)).push(PEv::Cb(CbAns::Err))
 }
+pub open spec fn cb_ans(r: Result<bool, Error>) -> CbAns {
+    match r { Ok(true) => CbAns::True, Ok(false) => CbAns::False, Err(_) => CbAns::Err }
+}
+/// a call of the readiness callback (`has_signals(<read end>)`, rewrite Q2): one event carrying its answer
+#[verifier::external_body]
+fn verif_call_cb<R, F, O>(f: &mut F, r: &mut R, tr: &mut Ghost<PS<O>>) -> (res: Result<bool, Error>)
+    where F: FnMut(&mut R) -> Result<bool, Error>,
+    ensures final(tr)@.tr == old(tr)@.tr.push(PEv::Cb(cb_ans(res))), final(tr)@.closed_seen == old(tr)@.closed_seen
+{ unimplemented!() }
 impl<R, E: Exfiltrator> SignalDelivery<R, E> where R: 'static + AsRawFd + Send + Sync {
     #[verifier::external_body]
-    pub fn poll_pending<F>(&mut self, has_signals: &mut F, tr: &mut Ghost<PS<E::Output>>) -> (r: Result<Option<Pending<E>>, Error>)
-    where F: FnMut(&mut R) -> Result<bool, Error>,
-        requires old(tr)@.tr.len() >= 1, old(tr)@.tr.last() == PEv::<E::Output>::Next(None), !old(tr)@.closed_seen,
-        ensures poll_pending_post(old(tr)@, final(tr)@, r is Ok && r->Ok_0 is Some, r is Ok && r->Ok_0 is None, r is Err)
+    pub fn get_read_mut(&mut self) -> &mut R { unimplemented!() }
+    /// flush (non-blocking drain of the self-pipe) then a new batch positioned at slot 0 (Kani: C09.DRAIN-THEN-SCAN)
+    #[verifier::external_body]
+    pub fn pending(&mut self, tr: &mut Ghost<PS<E::Output>>) -> (r: Pending<E>)
+        ensures final(tr)@.tr == old(tr)@.tr.push(PEv::Fresh), final(tr)@.closed_seen == old(tr)@.closed_seen
     { unimplemented!() }
 }
